@@ -49,9 +49,13 @@ func (o opSpec) String() string {
 }
 
 var (
-	ab = []string{"a", "b"}
-	ac = []string{"a", "c"}
+	ab  = []string{"a", "b"}
+	ac  = []string{"a", "c"}
+	abc = []string{"a", "b", "c"}
 )
+
+// addDeep is refused while a/b is a leaf (error path) and turns a/b into a branch otherwise.
+var addDeep = opSpec{"add", abc, "v1"}
 
 var alphaQuick = []opSpec{
 	{"add", ab, "v1"}, {"add", ac, "v1"}, {"add", ab, "v2"},
@@ -140,6 +144,19 @@ func (harness) Configs(tier string) []xplore.Config {
 	alpha := alphaFull
 	// 2 threads x (1..2 ops), 3 threads x 1 op: pre-emption bound 3
 	ps := programs(alpha, 2)
+	ps = append(ps, []opSpec{addDeep})
+	if tier == "thorough" {
+		for _, o := range alpha {
+			ps = append(ps, []opSpec{addDeep, o}, []opSpec{o, addDeep})
+		}
+		ps = append(ps, []opSpec{addDeep, addDeep})
+	} else {
+		for _, o := range alpha {
+			if !readOnly([]opSpec{o}) {
+				ps = append(ps, []opSpec{addDeep, o}, []opSpec{o, addDeep})
+			}
+		}
+	}
 	for _, in := range inits {
 		for i := 0; i < len(ps); i++ {
 			for j := i; j < len(ps); j++ {
@@ -147,7 +164,7 @@ func (harness) Configs(tier string) []xplore.Config {
 			}
 		}
 	}
-	p1 := programs(alpha, 1)
+	p1 := append(programs(alpha, 1), []opSpec{addDeep})
 	for _, in := range inits {
 		for i := 0; i < len(p1); i++ {
 			for j := i; j < len(p1); j++ {
@@ -411,13 +428,22 @@ func lops(rs []rec) []hutil.LOp {
 			out = append(out, hutil.LOp{Inv: r.inv, Ret: r.mid, Thread: r.thread, Name: fmt.Sprintf("%s=found:%v", r.spec, r.found), Step: func(s hutil.State) []hutil.State {
 				m := s.(*mst)
 				id, ex := m.tree[strings.Join(r.spec.path, "/")]
-				if ex != r.found {
+				br := false // the path names a branch: some leaf lies strictly beneath it
+				for lk := range m.tree {
+					if l := split(lk); len(l) > len(r.spec.path) && isPrefix(r.spec.path, l) {
+						br = true
+					}
+				}
+				if (ex || br) != r.found {
 					return nil
 				}
 				n := m.clone()
-				if ex {
+				switch {
+				case ex:
 					n.handles[r.slot] = id
-				} else {
+				case br:
+					n.handles[r.slot] = -2
+				default:
 					n.handles[r.slot] = -1
 				}
 				return []hutil.State{n}
@@ -425,7 +451,11 @@ func lops(rs []rec) []hutil.LOp {
 			if r.found {
 				out = append(out, hutil.LOp{Inv: r.mid + 1, Ret: r.ret, Thread: r.thread, Name: fmt.Sprintf("node.Value=%s", r.val), Step: func(s hutil.State) []hutil.State {
 					m := s.(*mst)
-					if m.val[m.handles[r.slot]] != r.val {
+					want := m.val[m.handles[r.slot]]
+					if m.handles[r.slot] == -2 {
+						want = "<nil>" // a branch has no value, and never turns into a leaf
+					}
+					if want != r.val {
 						return nil
 					}
 					return []hutil.State{m}
